@@ -47,6 +47,10 @@ def gen_design(rng, max_wrappers=3):
         if kind == "rename":
             src = rng.choice(real + VIRT + VIRT)
             wrappers[k].append({"kind": "rename", "map": {src: rng.choice(real)}})
+        elif rng.random() < 0.35:
+            # one inserter call with controls for several domains
+            names = rng.sample(real + VIRT, min(len(real + VIRT), rng.choice([2, 2, 3])))
+            wrappers[k].append({"kind": kind, "ctl": {nm: rng.randrange(nctrl) for nm in names}})
         else:
             wrappers[k].append({"kind": kind, "dom": rng.choice(real + VIRT), "ctrl": rng.randrange(nctrl)})
     design = {"domains": domains, "tree": tree, "wrappers": wrappers, "nctrl": nctrl, "regs": [], "mem": None}
@@ -92,6 +96,9 @@ def resolve(design, mod, name):
         for w in design["wrappers"][k]:
             if w["kind"] == "rename":
                 name = w["map"].get(name, name)
+            elif "ctl" in w:
+                if name in w["ctl"]:
+                    layers.append((w["kind"], w["ctl"][name]))
             elif w["dom"] == name:
                 layers.append((w["kind"], w["ctrl"]))
         k = design["tree"][k]
@@ -145,10 +152,10 @@ def build(design):
         for w in design["wrappers"][k]:
             if w["kind"] == "rename":
                 o = DomainRenamer(dict(w["map"]))(o)
-            elif w["kind"] == "reset":
-                o = ResetInserter({w["dom"]: b.ctrl[w["ctrl"]]})(o)
             else:
-                o = EnableInserter({w["dom"]: b.ctrl[w["ctrl"]]})(o)
+                ctl = w["ctl"] if "ctl" in w else {w["dom"]: w["ctrl"]}
+                ctl = {nm: b.ctrl[c] for nm, c in ctl.items()}
+                o = ResetInserter(ctl)(o) if w["kind"] == "reset" else EnableInserter(ctl)(o)
         objs[k] = o
         if k > 0:
             setattr(mods[design["tree"][k]].submodules, f"m{k}", o)
@@ -509,7 +516,8 @@ def run_shard(spec):
                 out["hist"][key] = out["hist"].get(key, 0) + 1
             for ws in design["wrappers"]:
                 for w in ws:
-                    out["hist"]["wrapper:" + w["kind"]] = out["hist"].get("wrapper:" + w["kind"], 0) + 1
+                    key = "wrapper:" + w["kind"] + (":multi-domain" if "ctl" in w else "")
+                    out["hist"][key] = out["hist"].get(key, 0) + 1
             if any(len(rg["parts"]) > 1 for rg in design["regs"]):
                 out["hist"]["split-domain-register"] = out["hist"].get("split-domain-register", 0) + 1
             if design["mem"]:
